@@ -28,7 +28,9 @@ import (
 var c10Peers = []string{"127.0.0.1", "10.0.0.1", "10.1.2.3", "192.168.1.5", "203.0.113.7", "::1", "::ffff:10.0.0.1", "2001:db8::1", "fe80::1%eth0",
 	"::ffff:203.0.113.7", "::ffff:127.0.0.1", "0:0:0:0:0:0:0:1", "2001:DB8::1", "2001:db8:0:0:0:0:0:1"}
 
-var c10Entries = []string{"10.0.0.0/8", "10.1.0.0/16", "127.0.0.1", "::1", "2001:db8::/32", "0.0.0.0/0", "10.0.0.0/33", "abc", "", "  ", "10.0.0.0/8 ", "203.0.113.7", "2001:db8::1", "203.0.113.7/32"}
+var c10Entries = []string{"10.0.0.0/8", "10.1.0.0/16", "127.0.0.1", "::1", "2001:db8::/32", "0.0.0.0/0", "10.0.0.0/33", "abc", "", "  ", "10.0.0.0/8 ", "203.0.113.7", "2001:db8::1", "203.0.113.7/32",
+	// an IPv4 address or network written in IPv4-mapped IPv6 form is still that address or network
+	"::ffff:10.0.0.1", "::ffff:10.1.0.0/112"}
 
 func peerAddr(p string) string {
 	if strings.Contains(p, ":") {
@@ -39,9 +41,13 @@ func peerAddr(p string) string {
 
 func parseEntry(e string) (netip.Prefix, bool) {
 	if pf, err := netip.ParsePrefix(e); err == nil {
+		if pf.Addr().Is4In6() && pf.Bits() >= 96 {
+			pf = netip.PrefixFrom(pf.Addr().Unmap(), pf.Bits()-96)
+		}
 		return pf.Masked(), true
 	}
 	if a, err := netip.ParseAddr(e); err == nil {
+		a = a.Unmap()
 		return netip.PrefixFrom(a, a.BitLen()), true
 	}
 	return netip.Prefix{}, false
